@@ -3,6 +3,7 @@ The refinement theorem on the fragment: the compiled flow and the reference flow
 fragment have the same index-resolved abstraction (category names not observed).
 -/
 import Rpft.Lemmas.CoreSwitch
+import Rpft.Lemmas.CoreFixAbs
 set_option linter.unusedSimpArgs false
 set_option linter.unusedVariables false
 namespace Rpft.CoreSheet
@@ -46,7 +47,13 @@ theorem good_of_fragment (rows : List CRow) (outE : List OutEdge) (hf : inFragme
   simp only [distinctTests, List.all_eq_true, List.mem_range] at h3
   have := h3 j hj
   rw [hc] at this
-  simpa using this
+  intro hk
+  have hmem : c.row.type ∈ switchTypes := by
+    rcases switch_type_of_kind hk with h | h | h <;> rw [h] <;> decide
+  simp only [Bool.or_eq_true, Bool.not_eq_true', decide_eq_true_eq] at this
+  rcases this with h | h
+  · rw [← List.contains_iff_mem, h] at hmem; cases hmem
+  · exact h
 
 theorem forall2_map_eq {α β γ} {R : α → β → Prop} {f : α → γ} {g : β → γ} {l1 : List α} {l2 : List β}
     (h : List.Forall₂ R l1 l2) (hfg : ∀ a b, R a b → f a = g b) : l1.map f = l2.map g := by
@@ -104,18 +111,19 @@ theorem node_abs_eq (rnf : Bool) (F r : Flow) (M : Maps) (ns : Array NodeM) (j :
     have hbl : ∀ e ∈ es, e.cond.blank = true := by
       intro e he
       obtain ⟨this, hsrc⟩ := hok e he
-      simp only [edgeOk, hsrc, hcj, Option.map_some, hk, Bool.or_eq_true] at this
-      rcases this with h1 | h1
-      · exact h1
-      · cases h1
+      simp only [edgeOk, hsrc, hcj, Option.map_some, hk] at this
+      exact this
     have hact : (toRRow c).act = c.row.action := by
       simp only [nodeRowOk, Bool.or_eq_true] at hfc
-      rcases hfc with h1 | h1
+      rcases hfc with (h1 | h1) | h1
       · simp only [plainActionRow, Bool.and_eq_true, decide_eq_true_eq] at h1
         exact h1.2.symm
       · simp only [switchRow, Bool.and_eq_true] at h1
         have := switch_type h1.1.1.1
         rcases kindOf_switch this with h2 | h2 | h2 <;> rw [hk] at h2 <;> cases h2
+      · simp only [fixedRow, Bool.and_eq_true] at h1
+        have := fixed_type h1.1.1.1
+        rcases kindOf_fixed this with h2 | h2 | h2 <;> rw [hk] at h2 <;> cases h2
     rw [mkNode_plain j (toRRow c) (es) hk hbl, absNode_plain_ref,
       absNode_plain_cmp _ _ n c.row.action hp.router hp.acts, hact]
     congr 2
@@ -124,12 +132,15 @@ theorem node_abs_eq (rnf : Bool) (F r : Flow) (M : Maps) (ns : Array NodeM) (j :
   | sw rr hk hp =>
     have hact : (toRRow c).act = none := by
       simp only [nodeRowOk, Bool.or_eq_true] at hfc
-      rcases hfc with h1 | h1
+      rcases hfc with (h1 | h1) | h1
       · simp only [plainActionRow, Bool.and_eq_true, Bool.not_eq_true'] at h1
         have := kindOf_action h1.1.1.1
         rcases hk with h2 | h2 | h2 <;> rw [this] at h2 <;> cases h2
       · simp only [switchRow, Bool.and_eq_true, Option.isNone_iff_eq_none] at h1
         exact h1.2
+      · simp only [fixedRow, Bool.and_eq_true] at h1
+        have := fixed_type h1.1.1.1
+        rcases kindOf_fixed this with h3 | h3 | h3 <;> rcases hk with h2 | h2 | h2 <;> rw [h3] at h2 <;> cases h2
     -- identifiers of the compiled router are pairwise different
     have hfn := hfn0
     have hrids : rr.ids.Nodup := by
@@ -241,6 +252,22 @@ theorem node_abs_eq (rnf : Bool) (F r : Flow) (M : Maps) (ns : Array NodeM) (j :
     have hop : rr.operand = (toRRow c).operand := hp.operand
     have hrn' : rr.resultName = some (toRRow c).saveName := hp.rname
     rw [htests, hwait, hdests, hop, hrn']
+    rfl
+  | fix rr sc hk hp =>
+    have hact : (toRRow c).act = some (c.row.ownAction.getD []) := by
+      simp only [nodeRowOk, Bool.or_eq_true] at hfc
+      rcases hfc with (h1 | h1) | h1
+      · simp only [plainActionRow, Bool.and_eq_true, Bool.not_eq_true'] at h1
+        have := kindOf_action h1.1.1.1
+        rcases hk with h2 | h2 | h2 <;> rw [this] at h2 <;> cases h2
+      · simp only [switchRow, Bool.and_eq_true] at h1
+        have := switch_type h1.1.1.1
+        rcases kindOf_switch this with h3 | h3 | h3 <;> rcases hk with h2 | h2 | h2 <;> rw [h3] at h2 <;> cases h2
+      · simp only [fixedRow, Bool.and_eq_true, decide_eq_true_eq] at h1
+        exact h1.2
+    have hk' : isFixedKind (toRRow c).kind := hk
+    rw [absNode_fix_ref rnf r j (toRRow c) es hk', absNode_fix_cmp rnf F M ns n c es rr sc hk hp hfn0, hact]
+    rw [dm _ _ (hlast _ (hfil _ _ hall)) hp.succ, dm _ _ (hlast _ (hfil _ _ hall)) hp.dflt, lastTgt_eq, lastTgt_eq]
     rfl
 
 theorem zipIdx_filterMap {α β} (F : α → Nat → Option β) : ∀ (l : List α) (k : Nat),
